@@ -18,10 +18,10 @@ Definition leaf_ok (k : leafR) (w : Rvec) : Prop :=
   | FBox lo hi => bound_ok n lo /\ bound_ok n hi
   | FHuber gamma => 0 <= gamma
   | FGroupL1 _ _ false | FGroupBall _ _ false => True     (* pointwise exponent 1 / inf: same code path as L1 / max-norm ball *)
-  | FGroupL1 m d true => (1 <= d)%nat /\ exists wb, allpos wb /\ length wb = m /\ w = concat (repeat wb d)
+  | FGroupL1 m d true | FGroupBall m d true =>
+      (1 <= d)%nat /\ exists wb, allpos wb /\ length wb = m /\ w = concat (repeat wb d)
   | FSimplex d => 0 <= d /\ (1 <= n)%nat /\ exists c, uniform w c       (* sort-based: uniformly weighted space *)
   | FBall1 | FLInf => (1 <= n)%nat /\ uniform w 1                       (* sort-based: unweighted space *)
-  | _ => False
   end.
 Definition leaf_vec_ok (k : leafR) : Prop :=
   match k with FL1 | FL2Sq | FConst _ | FBox _ _ | FIndZero _ | FGroupL1 _ _ false => True | _ => False end.
@@ -237,8 +237,15 @@ Proof.
       cbn [sigv]. rewrite Ln in *. rewrite Ew. apply groupl1_leaf_prox; auto. }
     destruct s as [sg|v|a b]; [| |contradiction]; eexists; (split; [reflexivity|]);
       apply (is_proxs_ext n (@leaf_val R _ _ FL1 w)); try reflexivity; apply l1_leaf_prox; auto.
-  - (* IndicatorGroupL1UnitBall with pointwise exponent inf *)
-    destruct two; [contradiction|].
+  - (* IndicatorGroupL1UnitBall *)
+    destruct two.
+    { (* pointwise 2-norm: proximal_convex_conj_l1_l2 *)
+      destruct Hk as (Hd1 & wb & Pwb & Lwb & Ew).
+      destruct s as [sg|v|a b]; cbn [leaf_sig_ok leaf_vec_ok] in Hs; [|tauto|contradiction].
+      cbn [needs_scalar]. eexists; split; [reflexivity|].
+      assert (Ln : n = (d * m)%nat).
+      { unfold n. rewrite Ew. clear -Lwb. induction d; cbn [repeat concat]; [reflexivity|]. rewrite app_length, IHd. lia. }
+      cbn [sigv]. rewrite Ln in *. rewrite Ew. apply groupball_leaf_prox; auto. }
     destruct s as [sg|v|a b]; cbn [leaf_sig_ok leaf_vec_ok] in Hs; [|tauto|contradiction].
     cbn [needs_scalar]. eexists; split; [reflexivity|].
     apply (is_proxs_ext n (@leaf_val R _ _ FBallInf w)); try reflexivity. apply ballinf_leaf_prox; auto.
